@@ -7,7 +7,8 @@ import typing_h as T
 
 TABLES = ["Kits"]
 LAKE_TARGETS = ["Moclo.Props.C17", "Moclo.Tables.Kits"]
-THEOREMS = ["Moclo.C17." + t for t in ["isValid_false_iff", "isValid_true_iff", "accessors_raise_invalid", "assemble_errors_documented"]]
+THEOREMS = ["Moclo.C17." + t for t in ["isValid_false_iff", "isValid_true_iff", "accessors_raise_invalid", "assemble_errors_documented",
+                                           "internal_only_for_bad_citations", "product_as_input_never_internal"]]
 # reductions under which a failing case stays a case of this property (see shrink.py)
 SHRINK = {"strings": True}
 RULE = ("all 85 concrete kit classes and generic classes over every supported enzyme x a malformed stream (random "
